@@ -694,6 +694,23 @@ def main():
     ty.append("/-- nesting depth of the calls of every action -/")
     ty.append("def actionRanks : Array Nat := #[" + ", ".join(str(rank[n]) for n in range(len(acts))) + "]")
     ty.append("")
+    # claimed (checked in Lean): running this action reports an Error — it is an error-recovery action
+    # of aidl.lalrpop (`Diagnostic::from_error_recovery`) or a composite action that calls one
+    reports = {}
+    def reports_of(n):
+        if n in reports:
+            return reports[n]
+        if calls[n]:
+            r = any(reports_of(c) for c in calls[n])
+        else:
+            r = "from_error_recovery" in acts[n][2]
+        reports[n] = r
+        return r
+    for n in range(len(acts)):
+        reports_of(n)
+    ty.append("/-- claimed: running this action reports an Error (checked by `TyTables.actionsOk`) -/")
+    ty.append("def actionReports : Array Bool := #[" + ", ".join("true" if reports[n] else "false" for n in range(len(acts))) + "]")
+    ty.append("")
     ty.append("end Aidl.Gen")
     ty.append("")
 
